@@ -2192,16 +2192,22 @@ pub(crate) fn skip_attributes<R: Reader>(
                     continue;
                 }
                 constants::DW_FORM_block1 => {
-                    skip_bytes = input.read_u8().map(R::Offset::from_u8)?;
+                    let len = input.read_u8().map(R::Offset::from_u8)?;
+                    input.skip(len)?;
                 }
                 constants::DW_FORM_block2 => {
-                    skip_bytes = input.read_u16().map(R::Offset::from_u16)?;
+                    let len = input.read_u16().map(R::Offset::from_u16)?;
+                    input.skip(len)?;
                 }
                 constants::DW_FORM_block4 => {
-                    skip_bytes = input.read_u32().map(R::Offset::from_u32)?;
+                    let len = input.read_u32().map(R::Offset::from_u32)?;
+                    input.skip(len)?;
                 }
                 constants::DW_FORM_block | constants::DW_FORM_exprloc => {
-                    skip_bytes = input.read_uleb128().and_then(R::Offset::from_u64)?;
+                    // Skip now rather than accumulating: the length is untrusted and
+                    // adding to it could overflow.
+                    let len = input.read_uleb128().and_then(R::Offset::from_u64)?;
+                    input.skip(len)?;
                 }
                 constants::DW_FORM_string => {
                     let _ = input.read_null_terminated_slice()?;
